@@ -832,6 +832,15 @@ fn c19(thorough: bool, rng: &mut Rng, out: &mut Out) {
         if !last.contains(&format!("|5/{}/1/", k)) {
             out.fail(v, format!("C19 a virtual sign configured with the block of type {} did not accept a {}x{} page: {}", k, w, h, last));
         }
+        // ... and the page it then holds has exactly the type's dimensions and the bytes sent
+        match vsign::vsign_page_after_config(&b, &page) {
+            Some((vw, vh, bytes)) => {
+                if (vw, vh) != (w, h) || bytes != page.as_bytes() {
+                    out.fail(v, format!("C19 a virtual sign configured with the block of type {} derives {}x{} (the type's dimensions are {}x{}) or stores different bytes", k, vw, vh, w, h));
+                }
+            }
+            None => out.fail(v, format!("C19 a virtual sign configured with the block of type {} holds no page after a {}x{} page was sent (or panicked)", k, w, h)),
+        }
     }
     // all (family, id) pairs
     let fillers = if thorough { 3 } else { 1 };
